@@ -11,11 +11,37 @@ import bromelia._internal_utils as IU
 from contracts.common import any_avp_shape
 
 
+def _probe(ctx, avp):
+    """a real DiameterAVP with the same (code, vendor) when both are concrete, else None"""
+    from pyvc.spec import raw as _raw
+    from pyvc.values import is_sym as _is_sym
+    code = ctx.call_function(_raw, [avp, "code"], {})
+    vendor = ctx.call_function(_raw, [avp, "vendor_id"], {})
+    if _is_sym(code) or (vendor is not None and _is_sym(vendor)):
+        return None
+    return B.DiameterAVP(code=bytes(code), vendor_id=None if vendor is None else bytes(vendor),
+                         flags=0x80 if vendor else 0)
+
+
+def _class_name_effect(ctx, ns):
+    p = _probe(ctx, ns["avp"])
+    if p is not None:
+        return B.loader.get_avp_class_name(p)       # the real function on a concrete key
+    return ctx.fresh_str("avp_class_name")
+
+
+def _look_up_effect(ctx, ns):
+    p = _probe(ctx, ns["avp"])
+    if p is not None:
+        return IU.avp_look_up(p)
+    return ctx.fresh_str("avp_look_up")
+
+
 @contract("bromelia.base.DiameterAvpLoader.get_avp_class_name", prop="C10", name="naming")
 class _ClassName:
     args = {"self": T.Const(B.loader, path="bromelia.base:loader"), "avp": any_avp_shape()}
     at_calls = True
-    returns = T.Str()
+    effect = _class_name_effect
     assumes = ("DiameterAvpLoader.get_avp_class_name returns a str for every AVP "
                "(discharged by evaluation over the imported registry: C10/registry-names)",)
     proof = "table"
@@ -25,7 +51,7 @@ class _ClassName:
 class _LookUp:
     args = {"avp": any_avp_shape()}
     at_calls = True
-    returns = T.Str()
+    effect = _look_up_effect
     proof = "table"
 
 
